@@ -19,11 +19,8 @@ STUB_DIRS = ['lib/upipe-ts', 'lib/upipe-framers']
 
 def load(tier, repo, rep, quick=QUICK_DIRS, thorough=THOROUGH_DIRS, stub=STUB_DIRS):
     dirs = quick if tier == 'quick' else thorough
-    prog = facts.load_program(list_units(repo, dirs), repo=repo, tolerate=True)
-    if tier == 'thorough' and stub and os.path.isdir(os.path.join(facts.VERIF, 'stubs', 'bitstream')):
-        sprog = facts.load_program(list_units(repo, stub), repo=repo, stubs=True, tolerate=True)
-        prog.units.update(sprog.units)
-        prog.failed.update(sprog.failed)
+    sunits = list_units(repo, stub) if (tier == 'thorough' and stub) else []
+    prog = facts.load_with_stubs(list_units(repo, dirs), sunits, repo=repo)
     rep.units = sorted(prog.units)
     rep.not_analysed = {k: (v[0] if v else '') for k, v in prog.failed.items()}
     rep.nfuncs = sum(len(u.funcs) for u in prog.units.values()) + len(prog.hdr.funcs)
@@ -76,6 +73,26 @@ TEAR = re.compile(r'(_free|_clean|_dead|_destroy|_no_ref|_release|_free_\w+|_cle
 TEARCALL = re.compile(r'(_free|_release|_free_void|_free_flow|^free$|_free_pool|_clean_\w+|_destroy)$')
 
 
+def is_container(arg, bases):
+    """the argument designates the containing object itself (the variable,
+    a conversion of it, or the address of a member embedded in it), not an
+    object a member points to"""
+    a = strip_all_casts(arg)
+    while isinstance(a, dict):
+        k = a.get('k')
+        if k == 'ref':
+            return a['n'] in bases
+        if k == 'call' and len(a.get('args', [])) == 1 and re.search(r'_(to|from)_\w+$', a.get('fn') or ''):
+            a = strip_all_casts(a['args'][0])
+        elif k == 'container_of':
+            a = strip_all_casts(a['e'])
+        elif k == 'un' and a.get('op') == '&' and isinstance(strip_all_casts(a.get('e')), dict) and strip_all_casts(a['e']).get('k') == 'mem':
+            a = strip_all_casts(strip_all_casts(a['e'])['b'])
+        else:
+            return False
+    return False
+
+
 def rootname(n):
     r = root_of(n)
     depth = 0
@@ -88,14 +105,73 @@ def rootname(n):
     return None
 
 
+def check_uar(rep, fn, ev, relcall, p, base, inst):
+    """R-uar: no read of the released field after the release, unless the
+    field (or the variable it is reached through) is assigned in between"""
+    if '[]' in p:
+        return      # an element designated by a changing index: not one field
+    lhs_ids = set()
+    for bid, s, x in fn.nodes():
+        if is_assign(x) and x['op'] == '=':
+            l = strip(x['lhs'])
+            if isinstance(l, dict):
+                lhs_ids.add(id(l))
+
+    def load(nn):
+        return nn.get('k') == 'mem' and id(nn) not in lhs_ids and path_of(nn) == p
+
+    def reset(nn):
+        if is_assign(nn):
+            l = strip(nn['lhs'])
+            if path_of(l) == p:
+                return True
+            if isinstance(l, dict) and l.get('k') == 'ref' and l['n'] == base:
+                return True
+        if nn.get('k') == 'decl' and any(v['n'] == base for v in nn.get('vars', [])):
+            return True
+        return False
+    pos = [q for q in ev.find(lambda nn: nn is relcall)]
+    bad = []
+    for q in pos:
+        hits, _ = ev.reach((q[0], q[1]), load, reset)
+        bad += hits
+    if bad:
+        h = bad[0]
+        rep.add('R-uar', inst, VIOLATED, '%s:%s' % (fn.file, h[2].get('l')),
+                what='%s is read at line %s after %s(%s) at line %s gave up the reference it holds (no assignment in between)' % (
+                    p, h[2].get('l'), relcall['fn'], p, relcall.get('l')))
+    else:
+        rep.add('R-uar', inst, HOLDS, '%s:%s' % (fn.file, relcall.get('l')))
+
+
 def check_dangle(rep, prog):
+    rep.rule('R-uar', 'after a releasing call on a field (same list as R-dangle), in any function, no path reads that field again '
+             'before it, or the variable it is reached through, is assigned')
     rep.rule('R-dangle', 'after a releasing call on a field (upipe_release(s->f), uref_free(s->f), ubuf_free, upump_free, X_mgr_release, free, ...) '
              'in a function that is not itself a teardown function, every path to the exit stores to s->f, or hands the containing '
              'object to a free/release/clean function, or is an allocation-failure return')
+    thread_entries = {}
+    for uname, u in prog.units.items():
+        for fn in u.funcs.values():
+            for bid, s, x in fn.calls():
+                if x.get('fn') == 'pthread_create' and len(x.get('args', [])) >= 3:
+                    a = strip_all_casts(x['args'][2])
+                    if isinstance(a, dict) and a.get('k') == 'un' and a.get('op') == '&':
+                        a = strip_all_casts(a.get('e'))
+                    if isinstance(a, dict) and a.get('k') == 'ref':
+                        thread_entries.setdefault(uname, set()).add(a['n'])
     for uname, u in sorted(prog.units.items()):
         for fn in sorted(u.funcs.values(), key=lambda f: f.name):
-            if not (fn.inmain or fn.macro) or not fn.blocks or TEAR.search(fn.name):
+            if not (fn.inmain or fn.macro) or not fn.blocks:
                 continue
+            no_dangle = bool(TEAR.search(fn.name))
+            if fn.name in thread_entries.get(uname, ()):
+                # a thread entry runs once on a one-shot context that the
+                # joiner frees: what it leaves in the context is never read
+                rep.add('R-dangle', '%s:thread-entry' % fn.name, OOS, fn.loc,
+                        why='start routine given to pthread_create: its context is one-shot and freed by the joining function')
+                no_dangle = True
+            ldefs = None
             ev = None
             for bid, s, x in fn.calls():
                 if not (x.get('fn') and REL.match(x['fn']) and x.get('args')):
@@ -112,16 +188,30 @@ def check_dangle(rep, prog):
                 def isthis(nn, x=x):
                     return nn is x
 
-                def fix(nn, p=p, base=base):
+                if ldefs is None:
+                    ldefs = fn.local_defs()
+                bases = {base}
+                d = ldefs.get(base)
+                if isinstance(d, dict):
+                    # `struct x *s = _s;` / `s = X_from_upipe(upipe)`: freeing
+                    # what s was derived from frees the container too
+                    r = rootname(d)
+                    if r:
+                        bases.add(r)
+
+                def fix(nn, p=p, bases=bases):
                     if is_assign(nn) and path_of(nn['lhs']) == p:
                         return True
                     if nn.get('k') == 'call' and nn.get('fn') and TEARCALL.search(nn['fn']):
-                        if any(rootname(arg) == base for arg in nn.get('args', [])):
+                        if any(is_container(arg, bases) for arg in nn.get('args', [])):
                             return True
                     if nn.get('k') == 'return' and isinstance(nn.get('e'), dict) and enum_name(nn['e']) == 'UBASE_ERR_ALLOC':
                         return True
                     return False
                 inst = '%s:%s(%s)' % (fn.name, x['fn'], p)
+                check_uar(rep, fn, ev, x, p, base, inst)
+                if no_dangle:
+                    continue
                 if pr.must_follow(ev, isthis, fix):
                     rep.add('R-dangle', inst, VIOLATED, '%s:%s' % (fn.file, x.get('l')),
                             what='%s(%s) and then a path reaches the end of %s without overwriting %s: the field keeps pointing at the released object' % (x['fn'], p, fn.name, p))
